@@ -1166,16 +1166,23 @@ func (envs *Manager) handleDeviceEvent(evt event.DeviceEvent) {
 				WithField("taskRole", t.GetParentRolePath()).
 				WithField("envState", env.CurrentState()).
 				WithField(infologger.Level, infologger.IL_Support).
-				Debug("received TASK_INTERNAL_ERROR event from task, trying to stop the run")
-			if env.CurrentState() == "RUNNING" {
+				Debug("received TASK_INTERNAL_ERROR event from task")
+			// The task has failed, whatever its environment is doing: its role goes to ERROR. For a critical task
+			// this takes the workflow, and through it the environment, to ERROR - also outside of a run.
+			critical := false
+			if parent := t.GetParent(); parent != nil {
+				critical = parent.GetTaskTraits().Critical
+				parent.UpdateState(sm.ERROR)
+			}
+			// Only a critical task ends the run: a non-critical one never changes the state of its environment.
+			if env.CurrentState() == "RUNNING" && critical {
 				go func() {
-					t.GetParent().UpdateState(sm.ERROR)
 					err = env.TryTransition(NewStopActivityTransition(envs.taskman))
 					if err != nil {
 						log.WithPrefix("scheduler").
 							WithField("partition", envId.String()).
 							WithError(err).
-							Error("cannot stop run after END_OF_STREAM event")
+							Error("cannot stop run after TASK_INTERNAL_ERROR event")
 					}
 				}()
 			}
